@@ -206,7 +206,7 @@ def run(ctx):
     pre = common.Result()
     nreg = replay_regressions(ctx, pre)
     res = hyp.run_property(ctx, cases(), check, ctx.pick(4000, 100000), known_keys=known,
-                           time_budget=ctx.pick(400, 5400))
+                           time_budget=ctx.pick(400, 900))
     res.merge_json(pre.to_json())
     res.extra["regression_inputs_replayed"] = nreg
     return common.finish(ctx, res, "exploration", RULE, ASSUME)
